@@ -9,7 +9,7 @@ VARIABLES x2, y, op          \* x2: doubled abscissae (integers); op: record, [k
 Gaps == {1, 2, 3}
 RECURSIVE CumG(_, _, _)
 CumG(x0, g, i) == IF i = 1 THEN x0 ELSE CumG(x0, g, i - 1) + g[i - 1]
-XSeqs(n) == {[i \in 1..n |-> CumG(x0, g, i)] : x0 \in {0, 4}, g \in [1..(n - 1) -> Gaps]}
+XSeqs(n) == {[i \in 1..n |-> CumG(x0, g, i)] : x0 \in {0, 4, 0 - 2}, g \in [1..(n - 1) -> Gaps]}
 YVals == {-2, 1, 3}
 \* all value patterns for short series, three characteristic ones (ramp, zigzag, ties) for longer ones
 YSeqs(n) == IF n <= 3 THEN [1..n -> YVals]
